@@ -143,6 +143,41 @@ class Session:
         extra = [H == 0 for _, H in zero_hyps]
         return self.prove(name, lhs == rhs, hyps=list(hyps) + extra, kind=kind, **info)
 
+    def prove_rational(self, name, eqs, hyps=(), kind="ensures", **info):
+        """conjunction of equalities lhs == rhs between rational expressions (with uninterpreted
+        function applications) by normalisation with sympy.cancel; every symbolic denominator gets
+        its own `!= 0` obligation.  Falls back to the SMT query when normalisation does not give 0."""
+        from .polycert import rational_is_zero
+        import time as _t
+        all_ok, dens = True, []
+        t_end = _t.time() + 8.0           # total budget for the whole conjunction
+        try:
+            for lhs, rhs in eqs:
+                left = t_end - _t.time()
+                if left <= 0.2:
+                    all_ok = False
+                    break
+                ok, d = rational_is_zero(lhs - rhs, limit=left)
+                dens.extend(d)
+                if not ok:
+                    all_ok = False
+                    break
+        except Exception:
+            all_ok = False
+        if all_ok:
+            ob = Obligation(name=name, kind=kind, hyps=[], goal=True, info=dict(info, certificate="rational normal form"))
+            ob.status, ob.backend = "discharged", "sympy-cancel certificate"
+            self.obligations.append(ob)
+            seen = set()
+            for j, d in enumerate(dens):
+                if d.get_id() in seen:
+                    continue
+                seen.add(d.get_id())
+                self.prove(f"{name}#denominator_nonzero.{len(seen)}", d != 0, hyps=hyps, kind="noraise")
+            return ob
+        info = dict(info, timeout_ms=4000)      # the SMT fallback rarely decides these; keep it short
+        return self.prove(name, z3.And([l == r for l, r in eqs]), hyps=hyps, kind=kind, **info)
+
     def register_function(self, I, qualname, npaths):
         try:
             fv = I.get_function(qualname)
@@ -165,5 +200,5 @@ class Session:
         ax = list(self.global_axioms) + list(extra_axioms)
         for ob in self.obligations:
             if ob.status == "pending":
-                discharge(ob, timeout_ms=timeout_ms, extra_axioms=ax)
+                discharge(ob, timeout_ms=min(timeout_ms, ob.info.get("timeout_ms", timeout_ms)), extra_axioms=ax)
         return self.obligations
